@@ -7,6 +7,9 @@ open Neutrino.Utxo
 #print axioms C10_result_first
 #print axioms C10_deliver_drops_second
 #print axioms C10_result_idempotent
+#print axioms C10_readers_agree
+#print axioms C10_readers_first
+#print axioms C10_readers_none_hang
 #print axioms C10_result_idempotent_iter
 #print axioms C10_none_lost
 #print axioms C10_all_answered_partial
